@@ -49,6 +49,7 @@ RULE = (
     "the file being written) and restarts through the three documented routes with fresh objects built from the files only, "
     "continuing the export after each restart (<= 3 crash/restart cycles); workload model does the same with the real model run. "
     "Non-trivial = at least 3 exports or one fired crash; distinct = distinct sequence of (export, crash@file-kind, restart route, outcome)."
+    " Since the second session: I/O errors (ENOSPC/EIO) at drawn crossings, exports rejected for malformed data in the middle of a run, caller-chosen tuple order, export_constants_separately, stale files of an earlier finished run, times_to_export (model workloads), model families as for C10 (workloads model_mp), workload regrid (one exporter with fixed_grid=False whose grid is replaced between exports) and workload direct (the exporter's own API: constant data updated mid-run, pvd over a selection of steps, grids changed in place and handed over again)."
 )
 STATE_ABSTRACTION = "(number of complete exports capped at 12, cycle number, last event kind, files of the in-progress step complete?)"
 ASSUMPTIONS = [
